@@ -10,6 +10,7 @@ import numpy as np
 from .approximate import PersLandscapeApprox
 from .auxiliary import _p_norm, union_crit_pairs
 from .base import PersLandscape
+from .. import _verif
 
 __all__ = ["PersLandscapeExact"]
 
@@ -278,6 +279,8 @@ class PersLandscapeExact(PersLandscape):
             # pop first term
             b, d = A.pop(0)
             verboseprint(f"(b,d) is ({b},{d})")
+            if _verif.enabled:
+                _verif.emit("pop", b=b, d=d, lenA=len(A))
 
             # outer brackets for start of L_k
             L.append([[-np.inf, 0], [b, 0], [(b + d) / 2, (d - b) / 2]])
@@ -298,6 +301,8 @@ class PersLandscapeExact(PersLandscape):
                 if all(d >= _[1] for _ in A):
                     # add to end of L_k
                     L[landscape_idx].extend([[d, 0], [np.inf, 0]])
+                    if _verif.enabled:
+                        _verif.emit("end", dup=duplicate, lenA=len(A), shortcut_fired=duplicate > 0)
                     # for duplicates, add another copy of the last computed lambda
                     for _ in range(duplicate):
                         L.append(L[-1])
@@ -355,6 +360,8 @@ class PersLandscapeExact(PersLandscape):
                     )
                     # size_landscapes[landscape_idx] += 1
 
+                    if _verif.enabled:
+                        _verif.emit("ext", b=b_prime, d=d_prime, lenA=len(A))
                     b, d = b_prime, d_prime  # Set (b',d')= (b, d)
 
             landscape_idx += 1
